@@ -2,7 +2,7 @@ package sim
 
 import (
 	"crypto/ed25519"
-	"crypto/rsa"
+	"crypto/ecdsa"
 	"errors"
 	"fmt"
 
@@ -15,7 +15,7 @@ import (
 
 // Fault kinds assignable to one signer call / one verifier call.
 var (
-	c20SignKinds   = []string{"ok", "signer.err", "signer.empty", "signer.nil", "signer.bytes+err", "signer.panic", "hsm.err", "hsm.badDER", "hsm.empty", "entropy.err@k", "entropy.short"}
+	c20SignKinds   = []string{"ok", "signer.err", "signer.empty", "signer.nil", "signer.bytes+err", "signer.panic", "hsm.err", "hsm.badDER", "hsm.empty", "hsm.bytes+err", "entropy.err@k", "entropy.short"}
 	c20VerifyKinds = []string{"ok", "verifier.err", "verifier.panic"}
 )
 
@@ -88,7 +88,7 @@ func init() {
 	Infos["C20"] = ScenarioInfo{
 		Level: "fault_enumeration",
 		Rule: fmt.Sprintf("one run = one signing or verifying entry point (Sign1, Sign1Untagged, Sign1Message.Sign, Signature.Sign, Countersignature.Sign, Countersign0, SignHashEnvelope, SignMessage.Sign with n <= %d signers; Sign1Message.Verify, Signature.Verify, Countersignature.Verify, VerifyCountersign0, VerifyHashEnvelope, SignMessage.Verify with n <= %d verifiers) "+
-			"driven under one fault vector: each signer call is assigned one of {ok, signer.err, signer.empty, signer.nil, signer.bytes+err, signer.panic (the seam panics; go-cose may pass the panic on, which counts as the error, but must not turn it into success), hsm.err, hsm.badDER, hsm.empty, entropy.err@k, entropy.short}, each verifier call one of {ok, verifier.err, verifier.panic}. "+
+			"driven under one fault vector: each signer call is assigned one of {ok, signer.err, signer.empty, signer.nil, signer.bytes+err, signer.panic (the seam panics; go-cose may pass the panic on, which counts as the error, but must not turn it into success), hsm.err, hsm.badDER, hsm.empty, hsm.bytes+err (the device returns signature bytes together with an error), entropy.err@k, entropy.short}, each verifier call one of {ok, verifier.err, verifier.panic}. "+
 			"The thorough tier enumerates ALL %d (entry point, n, vector) combinations, each under %d tape-drawn contexts (headers, payload, keys/algorithms, external data, k); the quick tier samples vectors from the tape. "+
 			"Oracle: any error kind => the call returns a non-nil error that wraps the injected one, returns no bytes, leaves the failing slot's signature empty, MarshalCBOR of the message errors, and no later signer/verifier was called; an empty-returning signer must surface as an error by MarshalCBOR at the latest and no helper returns bytes; entropy.short => success and the signature verifies; an ECDSA or PSS signature produced without the caller's entropy source having been read is reported (the injected failure could not surface); "+
 			"verifier.err at any position is returned, never nil, and later verifiers are not consulted; the reference parser finds no zero-length signature in anything emitted. "+
@@ -116,12 +116,20 @@ type c20Call struct {
 func (r *Run) c20Signer(t *tape.Tape, kind string, log *[]string, tag string) *c20Call {
 	c := &c20Call{kind: kind}
 	switch kind {
-	case "hsm.err", "hsm.badDER", "hsm.empty":
+	case "hsm.err", "hsm.badDER", "hsm.empty", "hsm.bytes+err":
 		c.key = poolEC[t.Choose(6, "c20.key.ec")] // P-256 / P-384
-		if kind == "hsm.empty" && t.Bool(1, 2, "c20.key.hsm.rsa") {
-			c.key = poolRSA[t.Choose(2, "c20.key.rsa")]
+		if kind != "hsm.badDER" {
+			// (a damaged RSA or Ed25519 signature is still "a signature" for the
+			// library: only ECDSA output has a format to break)
+			switch t.Pick([]int{2, 1, 1}, "c20.key.hsm.family") {
+			case 1:
+				c.key = poolRSA[t.Choose(2, "c20.key.rsa")]
+			case 2:
+				c.key = poolEd[t.Choose(3, "c20.key.ed")]
+			}
 		}
-		_, isRSAKey := c.key.Pub.(*rsa.PublicKey)
+		_, isECKey := c.key.Pub.(*ecdsa.PublicKey)
+		isRSAKey := !isECKey // "hands back whatever the device returned": RSA and Ed25519
 		hsm := &HSM{Key: c.key.Priv, Mode: kind[4:], Calls: &c.hsmN}
 		var inner cose.Signer
 		var err error
@@ -138,7 +146,7 @@ func (r *Run) c20Signer(t *tape.Tape, kind string, log *[]string, tag string) *c
 		// a device that returns nothing: an RSA one yields an empty signature,
 		// an ECDSA one unparsable ASN.1, i.e. an error
 		c.isErr = func() bool { return kind != "hsm.empty" || !isRSAKey }
-		if kind == "hsm.err" {
+		if kind == "hsm.err" || kind == "hsm.bytes+err" {
 			c.inject = ErrHSM
 		}
 	case "entropy.err@k", "entropy.short":
@@ -188,8 +196,8 @@ func (r *Run) c20Signer(t *tape.Tape, kind string, log *[]string, tag string) *c
 
 func (c *c20Call) isEmptyKind() bool {
 	if c.kind == "hsm.empty" {
-		_, isRSA := c.key.Pub.(*rsa.PublicKey)
-		return isRSA
+		_, isEC := c.key.Pub.(*ecdsa.PublicKey)
+		return !isEC
 	}
 	return c.kind == "signer.empty" || c.kind == "signer.nil"
 }
@@ -309,6 +317,20 @@ func c20Sign(r *Run, t *tape.Tape, e c20Entry, n int, vec []int) {
 		calls[i] = r.c20Signer(t, names[i], &log, itoa(i))
 	}
 	ent := NewEntropy(uint64(t.U32("entropy.seed")))
+	if c0 := calls[0]; e.multi && c0.ent != nil && t.Bool(1, 2, "c20.entropy.callers") {
+		// the failing source is the ONE reader the caller hands to
+		// SignMessage.Sign (not a per-signer one): signer 0 - an algorithm that
+		// draws entropy - meets the fault unless the library read the
+		// source dry or bypassed it beforehand
+		if _, isEd := c0.key.Pub.(ed25519.PublicKey); !isEd {
+			if c0.ent.FailAt > 8 {
+				c0.ent.FailAt = 8
+			}
+			c0.spy.OwnRand = nil
+			ent = c0.ent
+			r.Probe("entropy-fault-in-the-callers-reader")
+		}
+	}
 	external := genExternal(t)
 	payload := genPayload(t, false)
 	hdr := func(k *KeyPair) cose.Headers {
@@ -421,6 +443,16 @@ func c20Sign(r *Run, t *tape.Tape, e c20Entry, n int, vec []int) {
 				if made && !isEd && c.ent.n == 0 {
 					r.Check()
 					r.Fail("caller-entropy-source-bypassed/"+e.name, "signer %d (%s, key %s) was called and produced a signature, but the entropy source handed to %s was never read: its failure (%s) could not surface", i, c.kind, c.key.Name, e.name, c.kind)
+					return
+				}
+				// ... and none of them can sign with fewer than 16 bytes of it
+				// (ECDSA draws at least half the curve size, PSS a salt of the
+				// hash length): a source that can deliver only k < 16 bytes
+				// and was never asked for the next one was not what the
+				// signature was made from
+				if made && !isEd && c.kind == "entropy.err@k" && c.ent.FailAt < 16 {
+					r.Check()
+					r.Fail("caller-entropy-source-bypassed/"+e.name+"/short-of-entropy", "signer %d (key %s) produced a signature although the entropy source handed to %s can deliver only %d bytes and its failure was never met (%d bytes were drawn from it)", i, c.key.Name, e.name, c.ent.FailAt, c.ent.n)
 					return
 				}
 			}
